@@ -217,6 +217,11 @@ static void access(const void* p, bool write) {
 
 }  // namespace ts
 
+// An exception object lives in memory that libc's allocator hands out and takes back outside the simulated heap: a recycled address is a new object,
+// not a conflicting access to the old one (TSan proper resets its shadow at malloc the same way).
+extern "C" void* __real___cxa_allocate_exception(size_t);
+extern "C" void* __wrap___cxa_allocate_exception(size_t n) { void* p = __real___cxa_allocate_exception(n); if (p && ts::S.active) ts::shadowForget((uintptr_t)p, n); return p; }
+
 // the callbacks gcc's -fsanitize=thread instrumentation emits (no TSan runtime is linked)
 extern "C" {
 void __tsan_init() {}
